@@ -243,6 +243,16 @@ func (c *V2) Do(op Op) (out Outcome) {
 	case OpUpdate:
 		in := &v2ddb.UpdateItemInput{TableName: aws.String(op.Table), Key: ItemToV2(op.Key), UpdateExpression: updExpr(op),
 			ConditionExpression: condExpr(op), ExpressionAttributeNames: v2Names(op.Names), ExpressionAttributeValues: ItemToV2(op.Values)}
+		for a, u := range op.AttrUpd {
+			if in.AttributeUpdates == nil {
+				in.AttributeUpdates = map[string]v2types.AttributeValueUpdate{}
+			}
+			au := v2types.AttributeValueUpdate{Action: v2types.AttributeAction(u.Action)}
+			if u.Value != nil {
+				au.Value = ToV2(*u.Value)
+			}
+			in.AttributeUpdates[a] = au
+		}
 		in.ReturnConsumedCapacity = v2types.ReturnConsumedCapacity(op.RetCap)
 		if op.RetCCF {
 			in.ReturnValuesOnConditionCheckFailure = v2types.ReturnValuesOnConditionCheckFailureAllOld
